@@ -19,7 +19,7 @@ from typing import Dict, List, Optional, Tuple
 from . import gen
 from .gen import norm
 
-WORKERS = max(2, min(12, (os.cpu_count() or 4) - 2))
+WORKERS = max(2, min(14, (os.cpu_count() or 4) - 2))
 MAX_EXAMPLES_PER_KEY = 2
 
 
@@ -1061,7 +1061,7 @@ def c13_plan(seed: int, n: int):
     # 2. extended alphabet (underscore component, another letter): sampled per shape class
     ext_pairs = [(s, d) for s in ext_paths for d in ext_paths
                  if any(c in ("a_b", "x") for c in (s + "." + d).split("."))]
-    sel2 = bucket(ext_pairs, max(1, n // 6), lambda p: shape(p) + (_underscore(p[0]), _underscore(p[1])))
+    sel2 = bucket(ext_pairs, max(1, n // 4), lambda p: (gen.relation(p[0], p[1])[0], _underscore(p[0]), _underscore(p[1])))
     for s, d in sel2:
         jobs.append(("isolated", "pascal", sorted({s, d}), [(s, d)]))
     planned["isolated-ext"] = len(sel2)
@@ -1120,20 +1120,32 @@ def check_C13(seed: int, n: int) -> dict:
                 col.cover({"relation." + gen.relation(s, d)[0]: 1, "mode." + mode: 1, "style." + style: 1})
             text = res["schema"].text()
             for s, d, kind, detail in res["fails"]:
-                if d == "<wkt>":
-                    rel = "well-known-type"
+                general = kind.split(":")[0]
+                if style != "pascal":
+                    # the naming style is the root cause; relation / exception type only vary the symptom
+                    if d == "<wkt>" and general == "import-error":
+                        continue
+                    key = "C13:%s:%s" % (general, {"lower": "lowercase-message", "capitalized": "capitalized-package"}[style])
+                elif d == "<wkt>":
+                    if general == "import-error":
+                        continue  # consequence of an import error already reported for the package pair
+                    key = "C13:%s:well-known-type" % kind
+                elif general == "alias-collision":
+                    path = {"cousin": "cousin", "sibling": "cousin", "descendant": "descendant",
+                            "root-to-descendant": "descendant"}.get(gen.relation(s, d)[0], gen.relation(s, d)[0])
+                    key = "C13:alias-collision:%s-underscore" % path
                 else:
                     rel = gen.relation(s, d)[0]
                     if _underscore(s) or _underscore(d):
                         rel += "-underscore"
-                st = "" if style == "pascal" else ":" + {"lower": "lowercase-message", "capitalized": "capitalized-package"}[style]
-                raw.append(("C13:%s:%s%s" % (kind, rel, st), mode, "[%s, %d packages] %s" % (mode, len(packages), detail), text, style))
+                    key = "C13:%s:%s" % (kind, rel)
+                raw.append((key, mode, "[%s, %d packages] %s" % (mode, len(packages), detail), text, style))
             if len(col.samples) < 3 and mode != "combined":
                 col.samples.append({"mode": mode, "style": style, "pairs": res["pairs"], "references_checked": res["refs"],
                                     "failed": sorted({k for _, _, k, _ in res["fails"]})})
         iso_keys = {k for k, mode, _, _, _ in raw if mode == "isolated"}
         for k, mode, detail, text, style in sorted(raw, key=lambda x: (x[0], x[1] != "isolated", len(x[3]))):
-            key = k if (mode == "isolated" or k in iso_keys) else k + ":only-with-other-references"
+            key = k if (mode == "isolated" or k in iso_keys or k.startswith("C13:alias-collision")) else k + ":only-with-other-references"
             col.fail(key, detail, text)
         return col.result({"planned": planned, "references_checked": refs_checked,
                            "complete_enumeration_depth<=3_over_{a,b}": planned["isolated"] == 225})
